@@ -18,7 +18,7 @@ def real_clusters(ctx):
     from concurrent.futures import ThreadPoolExecutor
 
     from ..cascade_model import quick_instances, thorough_instances
-    from ..common import ROOT
+    from ..common import ROOT, MachineryError
     from .c05 import _free_port_base, _session_procs
 
     pool = [i for i in (quick_instances() if ctx.quick else thorough_instances()) if not i.gpu_tasks and i.outs]
@@ -27,10 +27,12 @@ def real_clusters(ctx):
 
     def job(ic):
         name, ob = job1(ic, 0)
-        if ob["outcome"] == "error" and str(ob.get("what", "")).startswith("TypeError:<class 'cascade.executor.msg."):
+        if ob["outcome"] != "ok" and ob.get("phase") == "startup":
             # an executor could not start (a port of its range was taken by another process): once more on another range
             name, ob = job1(ic, 1)
             ob["rerun"] = "startup"
+            if ob["outcome"] != "ok" and ob.get("phase") == "startup":
+                raise MachineryError(f"real cluster for {name} could not be started twice: {ob}")
         return name, ob
 
     def job1(ic, attempt):
